@@ -7,6 +7,7 @@
 import PicoSVG.Model.Pipeline
 import PicoSVG.Proofs.Round
 import PicoSVG.Proofs.Affine
+import PicoSVG.Proofs.IdemP
 
 set_option linter.unusedSectionVars false
 set_option linter.unusedVariables false
@@ -53,5 +54,29 @@ theorem rounding_stable (q : Rat) (n : Int) : F64.roundDec (F64.roundDec q n) n 
 
 /-- non-vacuity -/
 example : Groups.removableCore true false 2 (Groups.clamp01 (1/2 : Rat)) = false := by decide +kernel
+
+/-! #### the discard passes are idempotent (for every document tree) -/
+
+/-- a local filter pass whose decisions are stable under its own attribute rewriting changes nothing the second time -/
+theorem local_pass_idempotent (P : Cleanup.LocalPass) (h : IdemP.Stable P) (root : Node) :
+    Node.rewriteBelow P.f (Node.rewriteBelow P.f root) = Node.rewriteBelow P.f root :=
+  IdemP.rewriteBelow_idem P h root
+
+theorem removePIs_idempotent (root : Node) : Cleanup.removePIs (Cleanup.removePIs root) = Cleanup.removePIs root :=
+  IdemP.removePIs_idem root
+
+theorem removeAnonSymbols_idempotent (root : Node) :
+    Cleanup.removeAnonSymbols (Cleanup.removeAnonSymbols root) = Cleanup.removeAnonSymbols root :=
+  IdemP.removeAnonSymbols_idem root
+
+theorem removeTitleMetaDesc_idempotent (root : Node) :
+    Cleanup.removeTitleMetaDesc (Cleanup.removeTitleMetaDesc root) = Cleanup.removeTitleMetaDesc root :=
+  IdemP.removeTitleMetaDesc_idem root
+
+/-- `remove_nonsvg_content` on a document whose root it keeps (an svg root) -/
+theorem removeNonSvg_idempotent (ng : Bool) (u : Nat) (t : String) (a : Attrs) (cs : List Node)
+    (hroot : (Cleanup.nonSvgPass ng).drop t a = false) :
+    Cleanup.removeNonSvg ng (Cleanup.removeNonSvg ng (.elem u t a cs)) = Cleanup.removeNonSvg ng (.elem u t a cs) :=
+  IdemP.removeNonSvg_idem ng u t a cs hroot
 
 end PicoSVG.C07
